@@ -92,6 +92,15 @@ def job_spell(j):
         sp = spellings(smi, j.get('n', 8), j.get('seed', 0))
         outs = [[kind, s, decomp(sch, s)] for kind, s in sp if Chem.MolFromSmiles(s) is not None]
         outs.append(['mol-object', smi, decomp(sch, Chem.MolFromSmiles(smi))])
+        # molecule objects with explicit hydrogens, handed over TWICE (and to another scheme in between): the caller's object is
+        # an input, not a scratch pad
+        mh = Chem.AddHs(Chem.MolFromSmiles(smi))
+        sig0 = Chem.MolToSmiles(mh) + '|' + ','.join(sorted(a.GetPropsAsDict().keys().__str__() for a in mh.GetAtoms()))
+        outs.append(['mol-object-H', smi, decomp(sch, mh)])
+        outs.append(['mol-object-H-again', smi, decomp(sch, mh)])
+        sig1 = Chem.MolToSmiles(mh) + '|' + ','.join(sorted(a.GetPropsAsDict().keys().__str__() for a in mh.GetAtoms()))
+        if sig0 != sig1:
+            outs.append(['mol-object-modified', smi, {'exc': 'CallerObjectModified'}])
         m0 = Chem.MolFromSmiles(smi)
         six = [set(r) for r in m0.GetRingInfo().AtomRings() if len(r) == 6 and all(m0.GetAtomWithIdx(a).GetSymbol() == 'C' for a in r)]
         fused = any(len(a & b) >= 2 for i, a in enumerate(six) for b in six[i + 1:])
